@@ -35,6 +35,7 @@
 -/
 import DfolsVerif.Proofs.Interp
 import DfolsVerif.Proofs.ModelSnapshot
+import DfolsVerif.Proofs.Snapshots
 
 set_option linter.unusedSectionVars false
 
@@ -278,6 +279,24 @@ end Examples
   `posfac = 1 + max(|shift|/scale + |z|)/delta` for the rounding of the evaluation points themselves)
   on real runs with C = 32·(n+1) and records the distribution of `lhs / (eps·cond·posfac·scale)`.
 -/
+
+/-- **layer G: snapshots are copies** — decided over the generated table of every assignment in model.py to a snapshot
+    attribute: the evaluation numbers a Jacobian was built from are `self.eval_num.copy()` taken in
+    `interpolate_mini_models_svd`; the saved point takes copies of the residual, of the CURRENT Jacobian and of ITS
+    evaluation-number snapshot (not of the live `eval_num`) — and each of these assignments is present. -/
+theorem C11_src_snapshots :
+    (∀ a ∈ Gen.snapshotAssigns,
+      (a.1 = "__init__" ∧ a.2.2 = "None") ∨
+      (a.1 = "interpolate_mini_models_svd" ∧ a.2.1 = "model_jac_eval_nums" ∧ a.2.2 = "self.eval_num.copy()") ∨
+      (a.1 = "save_point" ∧
+        (a.2 = ("xsave", "xabs") ∨ a.2 = ("rsave", "rvec.copy()") ∨ a.2 = ("objsave", "obj") ∨
+         a.2 = ("jacsave", "self.model_jac.copy() if self.model_jac is not None else None") ∨
+         a.2 = ("nsamples_save", "nsamples") ∨ a.2 = ("eval_num_save", "eval_num") ∨
+         a.2 = ("jacsave_eval_nums", "self.model_jac_eval_nums.copy() if self.model_jac_eval_nums is not None else None")))) ∧
+    ("interpolate_mini_models_svd", "model_jac_eval_nums", "self.eval_num.copy()") ∈ Gen.snapshotAssigns ∧
+    ("save_point", "jacsave_eval_nums", "self.model_jac_eval_nums.copy() if self.model_jac_eval_nums is not None else None")
+      ∈ Gen.snapshotAssigns :=
+  ⟨Snapshots.snapshots_are_copies, Snapshots.snapshots_complete.1, Snapshots.snapshots_complete.2.2.2.2⟩
 
 end C11
 end Dfols
